@@ -68,7 +68,7 @@ func (m *c10mon) Check(s *sim.Sim, st *sim.Step) []*sim.Violation {
 			if rec.Probe.Ran && (rec.Probe.UID != "" || rec.Probe.UserPID != "") {
 				vs = append(vs, vio("C10", "request-after-logout-authenticated", "the request following a logout was served as %q", rec.Probe.UID))
 			}
-			if rec.Probe.Ran && rec.Probe.Route != "public" {
+			if rec.Probe.Ran && rec.Probe.Route != "public" && rec.Probe.Route != "cached" {
 				vs = append(vs, vio("C10", "protected-route-after-logout", "the request following a logout reached protected route %s", rec.Probe.Route))
 			}
 		}
@@ -120,10 +120,31 @@ func (m *c10mon) Check(s *sim.Sim, st *sim.Step) []*sim.Violation {
 			vs = append(vs, vio("C10", "value-survives-logout|"+k, "after logout the session still holds %s=%q (state before: %v)", k, trunc(v, 24), stateLabels(rec.SessIn)))
 		}
 		for _, k := range wl {
-			if v, had := rec.SessIn[k]; had && rec.SessOut[k] != v {
-				vs = append(vs, vio("C10", "whitelisted-value-lost-on-logout", "whitelisted key %q was not kept by logout", k))
-			} else if had {
+			// what the key should hold afterwards: its value at request start, unless the site's own
+			// middleware changed it in this very request (?_lang= puts app_lang, ?_drop= deletes a key)
+			want, had := rec.SessIn[k]
+			changed := false
+			if v := st.Act.Opt["_lang"]; v != "" && k == "app_lang" {
+				want, had, changed = v, true, true
+			}
+			if st.Act.Opt["_drop"] == k {
+				want, had, changed = "", false, true
+			}
+			got, has := rec.SessOut[k]
+			switch {
+			case had && (!has || got != want):
+				sig := "whitelisted-value-lost-on-logout"
+				if changed {
+					sig += "|changed-in-the-same-request"
+				}
+				vs = append(vs, vio("C10", sig, "whitelisted key %q should be %q after the logout, found %q (present=%v)", k, want, got, has))
+			case !had && has && changed:
+				vs = append(vs, vio("C10", "whitelisted-value-deleted-in-the-same-request-survives", "whitelisted key %q was deleted by the site's middleware in the logout request and is still %q", k, got))
+			case had:
 				m.stats.Count("whitelisted-kept")
+				if changed {
+					m.stats.Count("whitelisted-changed-in-logout-request")
+				}
 			}
 		}
 		if rec.CookiesOut["rm"] != "" {
@@ -180,6 +201,16 @@ func c10Extra(s *sim.Sim) *sim.Action {
 		// a logout link that carries a return target — same-site, off-site, malformed: logging out does
 		// not depend on it
 		return act("logout", b, -9, "", "redir", pickS(r, "/after", "//evil.example/", "https://evil.example/x", "/\\evil.example", "/\t/evil.example", "javascript:alert(1)", "%zz", "/x?y=1&z=2", " "))
+	case 7:
+		// the site's own middleware changes application keys in the very request that logs out
+		a := act("logout", b, -9, "")
+		if r.Intn(2) == 0 {
+			a.Opt["_lang"] = pickS(r, "fr", "de")
+		}
+		if r.Intn(2) == 0 {
+			a.Opt["_drop"] = pickS(r, "app_cart", "app_theme", "app_lang")
+		}
+		return a
 	case 5:
 		// the user table is unreachable while the browser logs out
 		s.Pending = append(s.Pending, act("logout", b, -9, ""), act("visit", b, -9, "", "route", pickS(r, "/protected/bare", "/public")))
